@@ -10,7 +10,7 @@ import (
 // fault-free run, for generated pipelines and terminals.
 func init() {
 	Register("C01", Family{Gen: func(c *Ctx) { genFaults(c, []string{"err", "perr", "pval", "cancel"}) }, Exec: execPipe})
-	Register("C03", Family{Gen: func(c *Ctx) { genFaults(c, []string{"err", "perr", "pval", "eoferr"}) }, Exec: execPipe})
+	Register("C03", Family{Gen: func(c *Ctx) { genFaults(c, []string{"err", "perr", "pval", "eoferr", "peof", "errctx"}) }, Exec: execPipe})
 }
 
 // callsOf runs the case fault-free and returns the number of call positions of its (single) run.
